@@ -72,6 +72,30 @@ func firstDiff(a, b []nEntry) (string, int) {
 	return "", -1
 }
 
+// orderOnlyDiff returns the first differing position when a holds exactly the
+// entries of b in another order, -1 otherwise (equal, or different contents).
+func orderOnlyDiff(a, b []nEntry) int {
+	if len(a) != len(b) {
+		return -1
+	}
+	cnt := map[nEntry]int{}
+	for _, e := range b {
+		cnt[e]++
+	}
+	for _, e := range a {
+		cnt[e]--
+		if cnt[e] < 0 {
+			return -1
+		}
+	}
+	for i := range a {
+		if a[i] != b[i] {
+			return i
+		}
+	}
+	return -1
+}
+
 func short(e nEntry) string {
 	n := e.Name
 	if len(n) > 60 {
@@ -914,37 +938,81 @@ func genE(t *rapid.T, _ *evid.Recorder) ECase {
 		Ver:      rapid.SampledFrom([]int{2, 3, 4, 4}).Draw(t, "ver"),
 		SkipHash: rapid.IntRange(0, 5).Draw(t, "skiphash") == 0,
 	}
+	// A path is drawn once and carries either one merged entry or the stage
+	// entries of an unmerged path: a non-empty subset of {1,2,3} in an arbitrary
+	// order (the encoder is handed whatever order its caller appended in).
 	n := rapid.IntRange(0, 10).Draw(t, "n")
 	for i := 0; i < n; i++ {
-		e := EEntry{
+		p := EEntry{
 			Comps: rapid.SliceOfN(rapid.IntRange(0, len(compTable)-1), 1, 4).Draw(t, "comps"),
 			Tail:  rapid.IntRange(0, 3).Draw(t, "tail"),
-			Mode:  rapid.IntRange(0, len(modes)-1).Draw(t, "mode"),
 		}
 		switch rapid.IntRange(0, 11).Draw(t, "len-class") {
 		case 0:
-			e.PadTo = rapid.IntRange(4090, 4100).Draw(t, "padto")
+			p.PadTo = rapid.IntRange(4090, 4100).Draw(t, "padto")
 		case 1:
-			e.PadTo = rapid.SampledFrom([]int{4094, 4095, 4096}).Draw(t, "padto")
+			p.PadTo = rapid.SampledFrom([]int{4094, 4095, 4096}).Draw(t, "padto")
 		case 2:
-			e.PadTo = rapid.IntRange(4101, 6000).Draw(t, "padto")
+			p.PadTo = rapid.IntRange(4101, 6000).Draw(t, "padto")
 		case 3:
-			e.PadTo = rapid.SampledFrom([]int{120, 127, 128, 129, 300, 16510, 16511, 16512, 20000}).Draw(t, "padto")
+			p.PadTo = rapid.SampledFrom([]int{120, 127, 128, 129, 300, 16510, 16511, 16512, 20000}).Draw(t, "padto")
 		}
+		stages := []int{0}
 		if rapid.IntRange(0, 2).Draw(t, "staged") == 0 {
-			e.Stage = rapid.IntRange(1, 3).Draw(t, "stage")
+			perm := rapid.Permutation([]int{1, 2, 3}).Draw(t, "stage-order")
+			stages = perm[:rapid.SampledFrom([]int{1, 2, 2, 3, 3}).Draw(t, "nstages")]
 		}
-		if rapid.IntRange(0, 2).Draw(t, "ext") == 0 {
-			e.Skip = rapid.Bool().Draw(t, "skip")
-			e.ITA = rapid.Bool().Draw(t, "ita")
+		for _, st := range stages {
+			e := p
+			e.Comps = append([]int(nil), p.Comps...)
+			e.Stage = st
+			e.Mode = rapid.IntRange(0, len(modes)-1).Draw(t, "mode")
+			if rapid.IntRange(0, 2).Draw(t, "ext") == 0 {
+				e.Skip = rapid.Bool().Draw(t, "skip")
+				e.ITA = rapid.Bool().Draw(t, "ita")
+			}
+			e.ZeroTimes = rapid.IntRange(0, 7).Draw(t, "zerotimes") == 0
+			e.CSec, e.MSec = genU32(t, "csec"), genU32(t, "msec")
+			e.CNsec = uint32(rapid.IntRange(0, 999999999).Draw(t, "cnsec"))
+			e.MNsec = uint32(rapid.SampledFrom([]int{0, 1, 999999999, 123456789}).Draw(t, "mnsec"))
+			e.Dev, e.Ino, e.UID, e.GID, e.Size = genU32(t, "dev"), genU32(t, "ino"), genU32(t, "uid"), genU32(t, "gid"), genU32(t, "size")
+			e.HashSeed = rapid.IntRange(0, 5).Draw(t, "hash")
+			c.Entries = append(c.Entries, e)
 		}
-		e.ZeroTimes = rapid.IntRange(0, 7).Draw(t, "zerotimes") == 0
-		e.CSec, e.MSec = genU32(t, "csec"), genU32(t, "msec")
-		e.CNsec = uint32(rapid.IntRange(0, 999999999).Draw(t, "cnsec"))
-		e.MNsec = uint32(rapid.SampledFrom([]int{0, 1, 999999999, 123456789}).Draw(t, "mnsec"))
-		e.Dev, e.Ino, e.UID, e.GID, e.Size = genU32(t, "dev"), genU32(t, "ino"), genU32(t, "uid"), genU32(t, "gid"), genU32(t, "size")
-		e.HashSeed = rapid.IntRange(0, 5).Draw(t, "hash")
-		c.Entries = append(c.Entries, e)
+	}
+	// Order in which the caller's slice holds the entries (the case lists them
+	// in exactly that order; checkE does not rearrange anything):
+	//   as-drawn      paths in random order, the stages of a path adjacent
+	//   shuffled      every entry anywhere
+	//   by-name       names non-decreasing, the stages of a path in the order drawn
+	//   by-name-desc  names non-decreasing, the stages of a path descending
+	//   sorted        (name, stage) ascending, what a decoded index looks like
+	//   reversed      (name, stage) descending
+	byName := func(stage func(a, b int) bool) {
+		sort.SliceStable(c.Entries, func(i, j int) bool {
+			a, b := c.Entries[i].name(), c.Entries[j].name()
+			if a != b {
+				return a < b
+			}
+			return stage != nil && stage(c.Entries[i].Stage, c.Entries[j].Stage)
+		})
+	}
+	switch rapid.SampledFrom([]string{"as-drawn", "as-drawn", "shuffled", "shuffled", "by-name", "by-name", "by-name", "by-name-desc", "sorted", "reversed"}).Draw(t, "arrange") {
+	case "shuffled":
+		if len(c.Entries) > 1 {
+			c.Entries = rapid.Permutation(c.Entries).Draw(t, "shuffle")
+		}
+	case "by-name":
+		byName(nil)
+	case "by-name-desc":
+		byName(func(a, b int) bool { return a > b })
+	case "sorted":
+		byName(func(a, b int) bool { return a < b })
+	case "reversed":
+		byName(func(a, b int) bool { return a < b })
+		for i, j := 0, len(c.Entries)-1; i < j; i, j = i+1, j-1 {
+			c.Entries[i], c.Entries[j] = c.Entries[j], c.Entries[i]
+		}
 	}
 	return c
 }
@@ -995,6 +1063,33 @@ func checkE(c ECase) evid.Result {
 		}
 		idx.Entries = append(idx.Entries, e)
 		want = append(want, normGo(e))
+	}
+	// how the caller's slice is ordered before the encoder sees it
+	if len(want) > 1 {
+		namesSorted, stagesSorted := true, true
+		for i := 1; i < len(want); i++ {
+			switch a, b := want[i-1], want[i]; {
+			case a.Name > b.Name:
+				namesSorted = false
+			case a.Name == b.Name && a.Stage > b.Stage:
+				stagesSorted = false
+			}
+		}
+		stagesAsc := map[string]int{}
+		for _, e := range want { // same question independent of adjacency
+			if last, ok := stagesAsc[e.Name]; ok && last > e.Stage {
+				lab["unmerged-path-stages-not-ascending"] = true
+			}
+			stagesAsc[e.Name] = e.Stage
+		}
+		switch {
+		case namesSorted && stagesSorted:
+			lab["order:presorted"] = true
+		case namesSorted:
+			lab["order:names-presorted-stages-not"] = true
+		default:
+			lab["order:names-unsorted"] = true
+		}
 	}
 	sort.SliceStable(want, func(i, j int) bool {
 		if want[i].Name != want[j].Name {
@@ -1075,6 +1170,9 @@ func checkE(c ECase) evid.Result {
 		}
 		return finish(evid.Failf(s, "git ls-files on go-git's index (v%d, %d entries): exit %d: %s", c.Ver, len(want), code, stderr))
 	}
+	if i := orderOnlyDiff(got, want); i >= 0 {
+		return finish(evid.Failf("C12/Encode-git-lists-in-different-order"+suffix, "git lists the encoded entries, but not in (name, stage) order: position %d is %s, expected %s (%d entries)", i, at(got, i), at(want, i), len(want)))
+	}
 	if f, i := firstDiff(got, want); f != "" {
 		return finish(evid.Failf("C12/Encode-git-lists-differently:"+f+suffix, "entry %d field %s: git lists %s, encoded %s (counts %d/%d)", i, f, at(got, i), at(want, i), len(got), len(want)))
 	}
@@ -1111,6 +1209,9 @@ func checkE(c ECase) evid.Result {
 		var rt []nEntry
 		for _, e := range back.Entries {
 			rt = append(rt, normGo(e))
+		}
+		if i := orderOnlyDiff(rt, want); i >= 0 {
+			return finish(evid.Failf("C12/Roundtrip-order-differs"+suffix, "Decode(Encode(x)) holds the encoded entries, but not in (name, stage) order: position %d is %s, expected %s", i, at(rt, i), at(want, i)))
 		}
 		if f, i := firstDiff(rt, want); f != "" {
 			return finish(evid.Failf("C12/Roundtrip-differs:"+f+suffix, "Decode(Encode(x)) entry %d field %s: got %s, encoded %s", i, f, at(rt, i), at(want, i)))
